@@ -141,7 +141,8 @@ def check_program(ctx, name, prog, vm='mbuff', helpers=(), props=('C04',), extra
                     setattr(ctx, 'validated_' + name, True)
                     # an access through a register loaded from input data has an input-dependent *address*: the model's region addresses are not the native ones
                     k_v = spec.classify(inst[0])[0] if inst else None
-                    data_addr = inst is not None and ((k_v == 'ldx' and inst[2] != 10) or (k_v in ('st', 'stx') and inst[1] != 10) or k_v == 'xadd')      # xadd: the alignment test depends on the address itself
+                    data_addr = inst is not None and (k_v == 'ldx' or      # ldx through r10 reads a stack byte the program never wrote: outside C04's statement (and a known finding of C10)
+                                                      (k_v in ('st', 'stx') and inst[1] != 10) or k_v == 'xadd')      # xadd: the alignment test depends on the address itself
                     import validate
                     if not data_addr: validate.validate(pr, ctx.drv, name, S, both, {'interp': v, 'cranelift': rv}, prog, vm, helpers, None)
                 rr, m = pr.prove(f'{name}:result', both, rv == v, sample=f'{name} ({vm}): CLIF return value = interpreter Ok(v) for all inputs')
